@@ -101,6 +101,10 @@ func (t *textScannerLexer) Next() (Token, error) {
 	text := t.scanner.TokenText()
 	pos := Position(t.scanner.Position)
 	pos.Filename = t.filename
+	if pos.Line == 0 {
+		// text/scanner reports an invalid position (0:0) for EOF of an empty input.
+		pos.Line, pos.Column = 1, 1
+	}
 	if t.err != nil {
 		return Token{}, t.err
 	}
